@@ -225,6 +225,11 @@ trait Subject: Sized {
     fn mutate(&mut self, _m: &Mutation) -> Option<MutOutcome> {
         None
     }
+    /// the C string constructor (`SemanticString::from_c_str`) on a NUL-terminated copy of `b`;
+    /// `None`: the type has none
+    fn create_c(_b: &[u8]) -> Option<Option<Self>> {
+        None
+    }
 }
 
 macro_rules! sem_subject {
@@ -232,6 +237,11 @@ macro_rules! sem_subject {
         impl Subject for $t {
             fn create(b: &[u8]) -> Option<Self> {
                 <$t>::new(b).ok()
+            }
+            fn create_c(b: &[u8]) -> Option<Option<Self>> {
+                let mut z = b.to_vec();
+                z.push(0);
+                Some(unsafe { <$t>::from_c_str(z.as_ptr() as *const core::ffi::c_char) }.ok())
             }
             fn bytes(&self) -> &[u8] {
                 self.as_bytes()
@@ -407,6 +417,23 @@ fn check_new<T: Subject>(ty: Ty, b: &[u8], utf8_only: bool, sys: &mut VSys) -> R
             format!("{ty:?}::new {}", class_of(b)),
             format!("{ty:?}::new({}) was {}, the documented rules say {}", esc(b), if real.is_some() { "accepted" } else { "rejected" }, if expected { "valid" } else { "invalid" }),
         ));
+    }
+    // the C string constructor sees the same bytes (when they contain no NUL) and must agree
+    if !b.contains(&0) {
+        if let Some(c) = T::create_c(b) {
+            if c.is_some() != expected {
+                return Err(Fail::new(
+                    if expected { "valid-name-rejected" } else { "invalid-name-accepted" },
+                    format!("{ty:?}::from_c_str {}", class_of(b)),
+                    format!("{ty:?}::from_c_str({}) was {}, the documented rules say {}", esc(b), if c.is_some() { "accepted" } else { "rejected" }, if expected { "valid" } else { "invalid" }),
+                ));
+            }
+            if let Some(c) = c {
+                if c.bytes() != b {
+                    return Err(Fail::new("round-trip", format!("{ty:?}::from_c_str as_bytes {}", class_of(b)), format!("{ty:?}::from_c_str({}) stores {}", esc(b), esc(c.bytes()))));
+                }
+            }
+        }
     }
     if let Some(v) = real {
         sys.accepted += 1;
